@@ -1638,7 +1638,14 @@ func (_inc) exec(vm *vm) {
 	case valueInt:
 		v = intToValue(int64(n + 1))
 	default:
-		v = floatToValue(n.ToFloat() + 1)
+		// ToNumeric: the operand of 'o++' as a statement has not been through toNumber, and the primitive value
+		// of an object may be a BigInt
+		v = toNumeric(v)
+		if b, ok := v.(*valueBigInt); ok {
+			v = (*valueBigInt)(new(big.Int).Add((*big.Int)(b), big.NewInt(1)))
+		} else {
+			v = floatToValue(v.ToFloat() + 1)
+		}
 	}
 
 	vm.stack[vm.sp-1] = v
@@ -1658,7 +1665,12 @@ func (_dec) exec(vm *vm) {
 	case valueInt:
 		v = intToValue(int64(n - 1))
 	default:
-		v = floatToValue(n.ToFloat() - 1)
+		v = toNumeric(v) // see inc
+		if b, ok := v.(*valueBigInt); ok {
+			v = (*valueBigInt)(new(big.Int).Sub((*big.Int)(b), big.NewInt(1)))
+		} else {
+			v = floatToValue(v.ToFloat() - 1)
+		}
 	}
 
 	vm.stack[vm.sp-1] = v
